@@ -36,6 +36,10 @@ def gen(rs: int, tier: str, index: int) -> dict:
     if index % 2 == 0:
         s = gen_sched_script(rs, {"p_cancel": 0.25, "p_label_source": 0.4, "horizon_min": (2, 8)})
         s["mode"] = "loop"
+        rp = stream(rs, "c16stamp")
+        for src in s["sources"]:
+            if src.get("kind") == "scripted" and rp.random() < 0.3:
+                src["pre_stamp"] = True          # this source's pre_send stamps a run counter into the task's labels and kwargs
         return s
     r = stream(rs, "c16")
     base = 1_700_000_000_000_000 + r.randint(0, 10**9) * 1000
@@ -253,6 +257,8 @@ def oracle(script: dict, run: Any) -> List[Violation]:
     specs = all_specs(script)
     end = script["start"]["epoch_us"] + script["horizon_us"]
     cancelled = {c for src in script["sources"] for c in src.get("cancel", [])}
+    stamped = {e[4].get("id") for e in run.events if e[3] == "pre_send" and e[4].get("source") is not None
+               and e[4]["source"] < len(script["sources"]) and script["sources"][e[4]["source"]].get("pre_stamp")}
     # schedules created through task.kicker().schedule_by_time / schedule_by_cron must be handed to the source (once, under the
     # requested schedule id) - otherwise there is nothing for the scheduler to send
     for e in h.kind("op_create_failed"):
@@ -299,6 +305,16 @@ def oracle(script: dict, run: Any) -> List[Violation]:
                     from taskiq.labels import prepare_label
                     want_labels = {n: ["str", prepare_label(_dec(v))[0]] for n, v in want_labels.items()}
                 got_labels = prim(msg["labels"])
+                if sid in stamped:
+                    # the source's pre_send stamps labels and kwargs together: the message must carry one state of the schedule - the
+                    # stamp in its labels and the one in its kwargs agree (whichever state that is)
+                    kn, ln = msg["kwargs"].get("run_no"), msg["labels"].get("run_no")
+                    if (kn is None) != (ln is None) or (kn is not None and [ln[0], ln[1]] != ["str", str(kn)]):
+                        out.append(Violation("C16/mixed-state-message", f"schedule {sid}: the message carries kwargs stamp {kn!r} but label stamp {ln!r}: "
+                                             "it mixes the schedule's state before and after pre_send", sid=sid))
+                        break
+                    msg = dict(msg, kwargs={k: v for k, v in msg["kwargs"].items() if k != "run_no"})
+                    got_labels = prim({k: v for k, v in msg["labels"].items() if k != "run_no"})
                 if msg["task_name"] != sp["task"] or msg["args"] != want_args or msg["kwargs"] != want_kwargs or got_labels != prim(want_labels):
                     out.append(Violation("C16/wrong-payload", f"schedule {sid}: sent task={msg['task_name']} args={msg['args']} kwargs={msg['kwargs']} labels={got_labels}; "
                                          f"schedule has task={sp['task']} args={want_args} kwargs={want_kwargs} labels={prim(want_labels)}", sid=sid))
